@@ -2,7 +2,7 @@ import VgiVerif.Model.C33
 import VgiVerif.Lemmas.Sched
 /-
 C33 (b): the inductive invariant of the accept-loop transition system (`Model/C33.lean`, `Loop`) for the repaired
-shape (`clearOnAccept`, `checkCurrent`), preserved label by label; `inv_reachable` is what `Proofs/C33.lean` uses.
+shape (`clearOnAccept`, `cbCheck = own`), preserved label by label; `inv_reachable` is what `Proofs/C33.lean` uses.
 -/
 namespace VgiVerif.C33
 open VgiVerif.Sched
@@ -423,15 +423,15 @@ theorem inv_arm (h : Inv cfg s) (i : Nat) (hi : cfg.idle = some i) (hcc : s.conn
     rw [h2]; exact firedI k h1
 
 /-- the timer callback's critical section (repaired shape: a stale callback changes nothing) -/
-theorem inv_callback {sh : Shape} (hsh : sh.checkCurrent = true) (h : Inv cfg s) (k : Nat) (hf : s.tstate k = .fired)
-    (s' : St)
+theorem inv_callback {sh : Shape} (hsh : sh.cbCheck = .own) (h : Inv cfg s) (k : Nat) (hf : s.tstate k = .fired)
+    (arg : Option Nat) (s' : St)
     (hs' : (let s1 : St := { s with cbDone := upd s.cbDone k true }
-            if sh.checkCurrent ∧ s.timer ≠ some k then some s1
+            if sh.cbCheck.stale s.timer k arg then some s1
             else if s.connCount ≠ 0 then some { s1 with timer := none }
             else some { s1 with timer := none, flag := true, sinceDec := false }) = some s') :
     Inv cfg s' := by
   obtain ⟨cc, hlive, llive, lnone, openLive, openPc, anyLive, anyGot, lastNow, flagI, timerI, firedI, bad, monHist⟩ := h
-  simp only [hsh, true_and] at hs'
+  simp only [hsh, CbCheck.stale, bne_iff_ne, ne_eq] at hs'
   split at hs'
   · cases hs'
     exact ⟨cc, hlive, llive, lnone, openLive, openPc, anyLive, anyGot, lastNow, flagI, timerI, firedI, bad, monHist⟩
@@ -454,7 +454,7 @@ end steps
 
 /-! ### the invariant holds in every reachable state -/
 
-theorem inv_step {sh : Shape} (h1 : sh.clearOnAccept = true) (h2 : sh.checkCurrent = true) (h3 : sh.regInHandler = false)
+theorem inv_step {sh : Shape} (h1 : sh.clearOnAccept = true) (h2 : sh.cbCheck = .own) (h3 : sh.regInHandler = false)
     (cfg : Cfg)
     (s : St) (l : Label) (s' : St) (h : Inv cfg s) (hst : step sh cfg s l = some s') : Inv cfg s' := by
   cases l with
@@ -580,18 +580,28 @@ theorem inv_step {sh : Shape} (h1 : sh.clearOnAccept = true) (h2 : sh.checkCurre
       next hd => cases hst; exact inv_fire h k hd t'
       next => cases hst
     next => cases hst
+  | cbRead k =>
+    simp only [step] at hst
+    split at hst
+    · cases hst
+      obtain ⟨cc, hlive, llive, lnone, openLive, openPc, anyLive, anyGot, lastNow, flagI, timerI, firedI, bad, monHist⟩ := h
+      exact ⟨cc, hlive, llive, lnone, openLive, openPc, anyLive, anyGot, lastNow, flagI, timerI, firedI, bad, monHist⟩
+    · cases hst
   | callback k =>
     simp only [step] at hst
     split at hst
-    next hg => exact inv_callback h2 h k hg.1 s' hst
     next => cases hst
+    next arg _ =>
+      split at hst
+      next hg => exact inv_callback h2 h k hg.1 arg s' hst
+      next => cases hst
   | vars cc tm fl =>
     simp only [step] at hst
     split at hst
     · cases hst; exact h
     · cases hst
 
-theorem inv_reachable {sh : Shape} (h1 : sh.clearOnAccept = true) (h2 : sh.checkCurrent = true)
+theorem inv_reachable {sh : Shape} (h1 : sh.clearOnAccept = true) (h2 : sh.cbCheck = .own)
     (h3 : sh.regInHandler = false) (cfg : Cfg) :
     ∀ s, (ts sh cfg).Reachable s → Inv cfg s :=
   TS.invariant_of_step (ts sh cfg) (Inv cfg) (inv_init cfg) (fun s l s' hi hst => inv_step h1 h2 h3 cfg s l s' hi hst)
